@@ -19,7 +19,7 @@ CHECKS.update({
  "C03": {
   "level": "exploration",
   "technique": "TLA+ reference model (Etf.tla AltsDeep/CompressedAlts) enumerates every admissible encoding per node with TLC; vectors replayed into the Rust decoder and compared with the spec's value",
-  "text": "For each value of the universe TLC emits the canonical encoding and every alternative tag choice at the root or at one child (legacy, text-float, string, big-integer widths incl. zero padding, LOCAL_EXT wrapping, COMPRESSED); the library must decode each to exactly the value and reject trailing bytes. The trailing-byte test is applied to the canonical and to every alternative encoding (also after a top-level COMPRESSED section): decode must fail, decode_with_trailing must hand the byte back.",
+  "text": "For each value of the universe TLC emits the canonical encoding and every alternative tag choice at the root or at one child (legacy, text-float, string, big-integer widths incl. zero padding, LOCAL_EXT wrapping, COMPRESSED); the library must decode each to exactly the value and reject trailing bytes. The trailing-byte test is applied to the canonical and to every alternative encoding (also after a top-level COMPRESSED section): decode must fail, decode_with_trailing must hand the byte back. Decoding is a function of the bytes (Etf!Parse has no state): after about 1500 rejected inputs on the same thread (nests deeper than the limit in every container kind, truncations of the vectors, counts that promise more than there is) every vector is decoded again and must give what it gave before.",
   "design_ref": "DESIGN.md §5 C03",
   "note": "One alternative per encoding (root or one child), FLOAT_EXT texts and zlib streams from python tables. Open finding C03-mapmerge is matched by input class (numerically-equal distinct keys) and deviation (entries merged, nothing else changed).",
  },
@@ -33,7 +33,7 @@ CHECKS.update({
  "C13": {
   "level": "exploration",
   "technique": "TLA+ reference model supplies the corpus (valid modern/legacy encodings, classified by the spec) plus truncations and seeded mutations; owned and zero-copy decoders compared differentially",
-  "text": "On every corpus input: zero-copy Ok implies owned Ok with structurally identical term (Debug rendering, denotation, re-encoding); spec-classified modern-tag valid encodings accepted by the owned decoder must be accepted by the zero-copy decoder; reported offsets lie within the input; no panic.",
+  "text": "On every corpus input: zero-copy Ok implies owned Ok with structurally identical term (Debug rendering, denotation, re-encoding); spec-classified modern-tag valid encodings accepted by the owned decoder must be accepted by the zero-copy decoder; reported offsets lie within the input; no panic; and the same history test as C03 (both decoders again after a history of rejected inputs on the same thread).",
   "design_ref": "DESIGN.md §5 C13",
   "note": "Differential oracle; corpus bounded by the universe, all truncation offsets of encodings <= 400 bytes and 8 (quick) / 60 (thorough) mutations per encoding.",
  },
@@ -76,7 +76,7 @@ CHECKS["C14"] = {
 CHECKS["C05"] = {
   "level": "model_checking",
   "technique": "TLA+ spec of framer, nondeterministic transport and two-phase deframer (Framing.tla) model-checked by TLC; every finished behaviour's chunk schedule replayed on MessageDeframer::read_framed / MessageFramer::write_framed through scripted AsyncRead/AsyncWrite",
-  "text": "TLC checks OutIsPrefixOfSent, AllDeliveredWhenConsumed, NoShortMessage, OverCapRefused over every chunking / pending / close behaviour of four small streams (both prefix widths, zero-length frames, an over-cap frame) and requires a counterexample for the weakened deframer; all schedules of two streams (tens of thousands; sampled to 40 000 in the quick tier) drive the real deframer and its returned messages, error/no-error outcome and consumption are compared with the model; streaming writer vs one-shot framing under partial writes; cap and 2^16 classes with real sizes under the counting allocator. Bodies of 65537 to 200000 bytes followed by three more frames are read under four coalescing schedules. The same message sequences also go over real sockets through FramedTransport (transport.rs): a 2-byte-prefix part followed by a 4-byte-prefix part in one stream, one write or pieces, after which the reader switches the frame mode or takes the read half and continues with its own MessageDeframer; FramedTransport::write must produce the same bytes as the spec's framing.",
+  "text": "TLC checks OutIsPrefixOfSent, AllDeliveredWhenConsumed, NoShortMessage, OverCapRefused over every chunking / pending / close behaviour of four small streams (both prefix widths, zero-length frames, an over-cap frame) and requires a counterexample for the weakened deframer; all schedules of two streams (tens of thousands; sampled to 40 000 in the quick tier) drive the real deframer and its returned messages, error/no-error outcome and consumption are compared with the model; streaming writer vs one-shot framing under partial writes, each schedule on a plain writer and on a gathering writer (a vectored write takes any non-empty prefix across the buffers offered); cap and 2^16 classes with real sizes under the counting allocator. Bodies of 65537 to 200000 bytes followed by three more frames are read under four coalescing schedules. The same message sequences also go over real sockets through FramedTransport (transport.rs): a 2-byte-prefix part followed by a 4-byte-prefix part in one stream, one write or pieces, after which the reader switches the frame mode or takes the read half and continues with its own MessageDeframer; FramedTransport::write must produce the same bytes as the spec's framing.",
   "design_ref": "DESIGN.md §5 C05",
   "note": "Streams of <= 15 wire bytes exhaustively; larger sizes only as length classes. Read timeouts of FramedTransport (a delay longer than the timeout) are outside this model.",
 }
@@ -90,7 +90,7 @@ CHECKS["C04"] = {
 CHECKS["C16"] = {
   "level": "model_checking",
   "technique": "TLA+ spec of the allocators with one action per atomic step (PidAlloc.tla) model-checked by TLC over all interleavings; real allocator executed under a deterministic thread scheduler (guarded sync points, lock probe) on enumerated, random and adversarial (weakened-spec counterexample) schedules; recorded traces validated by TLC (Trace_PidAlloc.tla)",
-  "text": "TLC explores every interleaving of 2-3 concurrent allocate() calls from the start, the id wrap and the serial wrap (scaled constants) and of two make_reference calls, and finds the duplicate-pid schedule when the mutex is not enforced. That schedule, every interleaving of two allocations (sampled in the quick tier) and seeded random schedules of 2-4 threads are forced on the real PidAllocator / Node::make_reference at the real wrap positions (2^20 ids, 2^32 serials, u32 counter); TLC then accepts the recorded trace as a behaviour of the spec with Unique, CreationInForce and RefUnique checked in every state, falling back to the lock-free spec to separate drift from a property violation. The fall-back chain is locked spec -> no mutual exclusion -> reads of non-current values -> only calls and results bound; the invariants include NoReissue (nothing before the observation's origin is issued again) and IssuedIsSequence (what was issued is exactly the first n members of the closed-form sequence SeqIssue, TLC-checked against the step spec). Free-running bulk runs (3.1 M allocations across the 32-bit serial wrap and three trips; 300 000 references) are compared with SeqIssue / the counter values. Thorough tier: Apalache discharges the inductive invariant of spec/apalache/PidAllocInd.tla (unbounded allocations, any MaxId).",
+  "text": "TLC explores every interleaving of 2-3 concurrent allocate() calls from the start, the id wrap and the serial wrap (scaled constants) and of two make_reference calls, with the environment putting creation values in force that recur (SetCreation; per-epoch origin), and finds the duplicate-pid schedule when the mutex is not enforced and the duplicate when set_creation restarts the numbering (switch CreationRewinds). That schedule, every interleaving of two allocations (sampled in the quick tier) and seeded random schedules of 2-4 threads are forced on the real PidAllocator / Node::make_reference at the real wrap positions (2^20 ids, 2^32 serials, u32 counter); TLC then accepts the recorded trace as a behaviour of the spec with Unique, CreationInForce and RefUnique checked in every state, falling back to the lock-free spec to separate drift from a property violation. The fall-back chain is locked spec -> no mutual exclusion -> reads of non-current values -> only calls and results bound; the invariants include NoReissue (nothing before the observation's origin is issued again) and IssuedIsSequence (what was issued is exactly the first n members of the closed-form sequence SeqIssue, TLC-checked against the step spec). Scenarios in which the creation changes between bursts of allocations and comes back to earlier values are recorded with a set_creation event and validated the same way (Unique over the whole scenario). Free-running bulk runs (3.1 M allocations across the 32-bit serial wrap and three trips; 300 000 references) are compared with SeqIssue / the counter values. Thorough tier: Apalache discharges the inductive invariant of spec/apalache/PidAllocInd.tla (unbounded allocations, any MaxId).",
   "design_ref": "DESIGN.md §5 C16, §2.4",
   "note": "Interleavings are controlled only at the guarded hook points (one per atomic step); preemption between two hooks is not explored. Serials / words logged relative to their start value (bijection) because TLC integers are 32-bit.",
 }
@@ -110,10 +110,10 @@ CHECKS["C19"] = {
 }
 CHECKS["C18"] = {
   "level": "model_checking",
-  "technique": "TLA+ spec of registry, mailboxes, links, monitors and exit propagation (LocalProc.tla) and of the gen_server / gen_event behaviours (Behaviours.tla) model-checked by TLC over all interleavings of two client tasks with the process steps; TLC-generated operation sequences and behaviour scripts executed on a real Node (recording processes, scripted GenServer / GenEventHandler); adversarial race schedule forced through guarded hooks",
-  "text": "TLC checks NameFreedAfterExit, HandledOnceInOrder, NoticeAtMostOnce on every interleaving (2 clients, 2-3 processes, 5 operations, two-step send_to_name and link) and LinkedNotifiedSeq on the sequential behaviours; it must find the counterexamples for NamesSurviveExit and for the late link. Operation sequences over spawn / register / unregister / send / send_to_name / kill / link / unlink / monitor / demonitor (length 4 exhaustive or sampled, length 8 simulated) run on a real node: per process the handled messages in order, the exit / down notices with identifier and reference, name resolution, liveness and each operation's outcome must equal the model's. Links / monitors only: every sequence of 4 operations on two live processes (4754), the 244 with a removal followed by a termination always executed. Behaviours: AnswerOnce, AnswerToCaller, Answered, GeAnswered, EventOnce model-checked (2 callers + a ghost, 2 handlers, 2-3 operations: 37 k / 2.5 M states); scripts of 2 operations (sampled) and 7 operations (simulated) run on a real GenServerProcess and GenEventManager: caller inboxes, callback logs, handler instances, which_handlers and send outcomes must equal the model's. The late-link schedule is forced on the real code and reported as KNOWN-FINDING C18-late-link.",
+  "technique": "TLA+ spec of registry, mailboxes, links, monitors and exit propagation (LocalProc.tla) and of the gen_server / gen_event behaviours (Behaviours.tla) model-checked by TLC over all interleavings of two client tasks with the process steps; TLC-generated operation sequences and behaviour scripts executed on a real Node (recording processes, scripted GenServer / GenEventHandler); adversarial race schedules forced through guarded hooks; TLC-simulated interleaved behaviours (client operations and process-task steps in one order) forced step by step on a real Node",
+  "text": "TLC checks NameFreedAfterExit, HandledOnceInOrder, NoticeAtMostOnce on every interleaving (2 clients, 2-3 processes, 5 operations, two-step send_to_name and link) and LinkedNotifiedSeq on the sequential behaviours; it must find the counterexamples for NamesSurviveExit and for the late link. Operation sequences over spawn / register / unregister / send / send_to_name / kill / link / unlink / monitor / demonitor (length 4 exhaustive or sampled, length 8 simulated) run on a real node: per process the handled messages in order, the exit / down notices with identifier and reference, name resolution, liveness and each operation's outcome must equal the model's. Links / monitors only: every sequence of 4 operations on two live processes (4754), the 244 with a removal followed by a termination always executed. Behaviours: AnswerOnce, AnswerToCaller, Answered, GeAnswered, EventOnce model-checked (2 callers + a ghost, 2 handlers, 2-3 operations: 37 k / 2.5 M states); scripts of 2 operations (sampled) and 7 operations (simulated) run on a real GenServerProcess and GenEventManager: caller inboxes, callback logs, handler instances, which_handlers and send outcomes must equal the model's. The late-link schedule is forced on the real code and reported as KNOWN-FINDING C18-late-link. Races: MC_LocalProcRace keeps the order of all steps of interleaved behaviours (3 processes, 6 operations over kill / send / link / unlink / monitor / demonitor); of 11 000 simulated ones the 140 (thorough: 2000) preferring overlapping exits and operations during an exit are forced on a real Node -- message handling gated in the recording processes, the exit path at proc.failed / links_snapshot / removing -- and judged by what the property says for sure (a watcher that never fails and whose relation was in place when the target failed and was not taken back hears of it exactly once; nothing twice; handled messages once, in order; terminated processes stop resolving), everything else against the model as drift.",
   "design_ref": "DESIGN.md §5 C18",
-  "note": "Real executions are sequential apart from the one adversarial schedule. Fake EPMD via the guarded port override.",
+  "note": "Race schedules are followed at the grain of the guarded points (exit notices, monitor snapshot and down notices are one stretch; link / monitor single calls). Fake EPMD via the guarded port override.",
 }
 CHECKS["C07"] = {
   "level": "model_checking",
